@@ -336,6 +336,8 @@ class Explorer:
                 for iv, s2 in self.ev(node.slice, s):
                     if iv == RAISE:
                         res.append((RAISE, s2))
+                    elif iv[0] == 'lindex' and iv[1] == ast.unparse(node.value) and bv[0] in ('locallist', 'tokenlist'):
+                        res.append((iv[2], s2))         # L[L.index(x)] is x
                     elif bv[0] == 'tuple' and iv[0] == 'const' and isinstance(iv[1], int) and -len(bv[1]) <= iv[1] < len(bv[1]):
                         res.append((bv[1][iv[1]], s2))
                     else:
@@ -672,14 +674,15 @@ class Explorer:
                     if vals == RAISE:
                         res.append((RAISE, s))
                         continue
-                    self.emit(s, 'call', node, name=name, args=tuple(vals), resolved=name in self.methods, node=node)
+                    callv = fresh('call:' + name)
+                    self.emit(s, 'call', node, name=name, args=tuple(vals), resolved=name in self.methods, node=node, result=callv)
                     mods = self.modsum(name) if name in self.methods else set(self.tracked)
                     if mods or name not in self.atomic:
                         self.on_unknown_effect(s)
                     if mods:
                         self.havoc_lists(s, mods)
                         self.do_assume(s, node, f'after {name}()')
-                    res.append((fresh('call:' + name), s))
+                    res.append((callv, s))
                 return res
             if f.attr == 'succeed':
                 res = []
@@ -761,10 +764,19 @@ class Explorer:
     def lookup(self, node: ast.Call, st: St):
         ge = node.args[0]
         gen = ge.generators[0]
-        src = ast.unparse(gen.iter)
-        srcL = self.tracked_list(gen.iter)
+        iter_node = gen.iter
+        index_var = None
+        target = gen.target
+        if isinstance(iter_node, ast.Call) and isinstance(iter_node.func, ast.Name) and iter_node.func.id == 'enumerate' and len(iter_node.args) == 1 \
+                and isinstance(target, ast.Tuple) and len(target.elts) == 2 and all(isinstance(e, ast.Name) for e in target.elts):
+            # next((i for i, t in enumerate(L) if P(t)), None): the look-up of t, answered by its index
+            index_var = target.elts[0].id
+            target = target.elts[1]
+            iter_node = iter_node.args[0]
+        src = ast.unparse(iter_node)
+        srcL = self.tracked_list(iter_node)
         pred = ' and '.join(ast.unparse(c) for c in gen.ifs)
-        var = gen.target.id if isinstance(gen.target, ast.Name) else None
+        var = target.id if isinstance(target, ast.Name) else None
         eqnames = []
         for c in gen.ifs:
             for x in ast.walk(c):
@@ -775,7 +787,7 @@ class Explorer:
                     elif isinstance(r, ast.Name) and r.id == var and isinstance(l, ast.Name):
                         eqnames.append(l.id)
         found = ('found', src, next(_uid), st.env.get(eqnames[0]) if eqnames else None)
-        src_val = self.pure_value(gen.iter, st)
+        src_val = self.pure_value(iter_node, st)
         a = st
         b = st.clone()
         atoms_found = []
@@ -791,6 +803,8 @@ class Explorer:
         default = NONE
         if len(node.args) > 1 and not (isinstance(node.args[1], ast.Constant) and node.args[1].value is None):
             default = ('expr', ast.unparse(node.args[1]), next(_uid))
+        if index_var is not None and isinstance(ge.elt, ast.Name) and ge.elt.id == index_var:
+            return [(('lindex', src, found), a), (default, b)]
         return [(found, a), (default, b)]
 
     def list_op(self, node: ast.Call, L: str, op: str, st: St):
@@ -860,6 +874,8 @@ class Explorer:
             result = NONE
             if op == 'pop':
                 result = ('lelem', name, vals[0] if vals else ('const', -1), next(_uid))
+                if vals and vals[0][0] == 'lindex' and vals[0][1] == name:
+                    result = vals[0][2]         # L.pop(L.index(x)) is x
             if op == 'index':
                 result = ('lindex', name, vals[0] if vals else None)
             self.emit(s, 'lop', node, list=name, listval=s.env.get(name), op=op, args=tuple(vals), result=result, node=node)
